@@ -92,6 +92,16 @@ func parseReceivePackResponse(resp *http.Response) (rpr *payload.ReceivePackResp
 	if err = json.Unmarshal(b, rpr); err != nil {
 		return nil, err
 	}
+	for _, sum := range rpr.TableACKs {
+		if sum == nil {
+			return nil, fmt.Errorf("null sum in receive pack response")
+		}
+	}
+	for name, u := range rpr.Updates {
+		if u == nil {
+			return nil, fmt.Errorf("null update for ref %q in receive pack response", name)
+		}
+	}
 	return rpr, nil
 }
 
